@@ -114,6 +114,15 @@ def enc_laws(s: bytes):
             out.append(("enc:roundtrip-raises:%s" % type(e).__name__, "expand(compress(s)) raised %r" % (e,)))
     if len(c) > 2 * len(s):
         out.append(("enc:grows", "len(compress(s)) = %d > 2*%d" % (len(c), len(s))))
+    # an encoding stays what it is while the encoder is used again (two packets being built, a batch encoded first and sent later)
+    try:
+        held = compress(s)
+        snap = bytes(held)
+        compress(b"\x07" + s[::-1] + b"\x00\x00\x09")
+        if bytes(held) != snap:
+            out.append(("enc:result-changed-by-later-call", "the encoding of %r... changed when another string was encoded afterwards" % s[:16]))
+    except Exception as e:
+        out.append(("enc:second-call-raises:%s" % type(e).__name__, "%r" % (e,)))
     return out
 
 
@@ -163,6 +172,8 @@ def shards(tier):
         sh.append({"kind": "enc_rand", "n": 30000 if th else 1500})
         sh.append({"kind": "dec_rand", "n": 30000 if th else 2500})
     sh.append({"kind": "peek", "n": 20000 if th else 1500})
+    # the coding as messages use it: zero-coded datagrams through the real serializer and deserializer (C02's laws on them)
+    sh.append({"kind": "msg", "n": 6000 if th else 500})
     sh.append({"kind": "bomb", "n": 200 if th else 40})
     if th:
         for i in range(4):
@@ -319,8 +330,39 @@ def _bomb(ctx, n):
                          % (kind, peak), x)
 
 
+def _msg_shard(ctx, n):
+    from checks import c02
+    from vlib import gen_template as gt
+    fixed = []
+    for ids in ([0x01000100, 0x00010001], [0x01000100], [0x00010001, 0x01000001, 0x01010100], [0x01010101], [0]):
+        fixed.append({"name": "PacketAck", "flags": 0x80, "pid": 77, "acks": [], "extra": b"", "fill": False,
+                      "blocks": [["Packets", [{"ID": i} for i in ids]]]})
+    for msg in fixed:
+        for deferred, inspect in ((False, ["never"]), (True, ["blocks"]), (True, ["never"])):
+            case = {"msg": msg, "muts": [], "deferred": deferred, "inspect": inspect}
+            ctx.case(("msg", repr(msg["blocks"]), deferred, tuple(inspect)), nontrivial=True, classes=["msg_level", "msg_isolated_zeros"])
+            res = c02.laws(None, case)
+            if res:
+                ctx.report({"msg_case": case}, [("msg-level:" + s, m) for s, m in res])
+    strat = st.fixed_dictionaries({
+        "msg": gt.message_case(allow_str=False).map(lambda c: dict(c, flags=c["flags"] | 0x80) if len(gt.ref_body(c)) < 0x2F00 else c),
+        "muts": st.one_of(st.just([]), st.lists(st.tuples(st.just("trunc"), st.floats(min_value=0.3, max_value=0.999)), min_size=1, max_size=1),
+                          st.lists(st.tuples(st.just("cutblocks"), st.integers(0, 5)), min_size=1, max_size=1),
+                          st.lists(st.tuples(st.just("rezero"), st.sampled_from(["pairs", "split", "wrap", "lone"])), min_size=1, max_size=1)),
+        "inspect": c02.INSPECT, "deferred": st.sampled_from([True, True, False])})
+
+    def body(case):
+        ctx.case(("msg", case["msg"]["name"], tuple(map(tuple, case["muts"])), case["deferred"], tuple(case["inspect"])),
+                 nontrivial=bool(case["msg"]["flags"] & 0x80), classes=["msg_level"])
+        return [("msg-level:" + s, m) for s, m in c02.laws(None, case)]
+    hyp_run(ctx, strat.map(lambda c: {"msg_case": c}), lambda wrapped: body(wrapped["msg_case"]), n, label="msg")
+
+
 def run_shard(ctx, shard):
     k = shard["kind"]
+    if k == "msg":
+        _msg_shard(ctx, shard["n"])
+        return
     if k == "enc_enum":
         _enum(ctx, ENC_ALPHA, shard["prefix"], shard["maxlen"], enc_laws, "enc_nontrivial", nontrivial_enc)
     elif k == "dec_enum":
@@ -377,6 +419,11 @@ def fuzz_one(data: bytes):
 
 
 def replay(ctx, case):
+    if isinstance(case, dict) and "msg_case" in case:
+        from checks import c02
+        c = case["msg_case"]
+        c = dict(c, muts=[tuple(m) for m in c["muts"]])
+        return [("msg-level:" + s, m) for s, m in c02.laws(None, c)]
     if isinstance(case, dict) and "fuzz" in case:
         return fuzz_one(bytes(case["data"]))[0]
     if isinstance(case, (bytes, bytearray)):
